@@ -193,7 +193,36 @@ def ev(name, env):
         return (x & 1) | ((cnt & 1) << 1)
     if name == "xk":         # Cat(x, k), 3 bits
         return x | (k << 2)
+    # multi-bit values used directly as a test / condition: true iff non-zero
+    if name == "sg":         # signed(3) register
+        return env["sg"]
+    if name == "xs":         # x.as_signed(), signed(2)
+        return wrap(x, 2, True)
+    if name == "xpc":        # x + cnt, unsigned(3)
+        return x + cnt
+    if name == "xmc":        # x - cnt, signed(3)
+        return x - cnt
+    if name == "xl1":        # x << 1, unsigned(3): bit 0 is always clear
+        return x << 1
+    if name == "xk12":       # Cat(x, k)[1:3]
+        return ((x | (k << 2)) >> 1) & 3
+    if name == "sgs":        # sg[1:], the two upper bits of the signed register, unsigned(2)
+        return (env["sg"] & 7) >> 1
     raise ValueError(name)
+
+
+def value_class(v):
+    """how a multi-bit test value relates to the 'only bit 0 is examined' / 'sign is mishandled' mistakes"""
+    if v == 0:
+        return "zero"
+    if v < 0:
+        return "negative_even" if v % 2 == 0 else "negative_odd"
+    return "even_nonzero" if v % 2 == 0 else "odd"
+
+
+def sg_of(x, k):
+    """the signed(3) register is loaded with Cat(x, k) on every active edge of p"""
+    return wrap(x | (k << 2), 3, True)
 
 
 WIDTH = {"x": 2, "xc": 2, "xk": 3, "cnt": 2}
@@ -210,21 +239,24 @@ def pat_match(pat, value, width):
     return True
 
 
-def active_leaves(prog, env, out=None):
-    """leaves that are active (all enclosing conditions hold) for env, in program order"""
+def active_leaves(prog, env, out=None, seen=None):
+    """leaves that are active (all enclosing conditions hold) for env, in program order; `seen` (a set) collects
+    ("if", condition name, value class) for every If / Elif condition that was evaluated"""
     if out is None:
         out = []
     for st in prog:
         if st[0] == "if":
             for cond, body in st[1]:
+                if cond is not None and seen is not None:
+                    seen.add(("if", cond, value_class(ev(cond, env))))
                 if cond is None or ev(cond, env):
-                    active_leaves(body, env, out)
+                    active_leaves(body, env, out, seen)
                     break
         elif st[0] == "sw":
             v = ev(st[1], env)
             for pats, body in st[2]:
                 if pats is None or any(pat_match(p, v, WIDTH[st[1]]) for p in pats):
-                    active_leaves(body, env, out)
+                    active_leaves(body, env, out, seen)
                     break
         else:
             out.append(st)
@@ -257,8 +289,8 @@ class TimingModel:
     bit1 = n.clk) simultaneously.  With `arst` bit2 of the mask toggles the asynchronous reset of p."""
     def __init__(self, prog_p, prog_n, cnt0=0, k0=0, arst=False):
         self.prog = {"p": prog_p, "n": prog_n}
-        self.init = {"cnt": cnt0, "k": k0}
-        self.env = {"x": 0, "cnt": cnt0, "k": k0}
+        self.init = {"cnt": cnt0, "k": k0, "sg": sg_of(cnt0, k0)}
+        self.env = {"x": 0, "cnt": cnt0, "k": k0, "sg": sg_of(cnt0, k0)}
         self.clk = {"p": 0, "n": 0}
         self.rst = 0
         self.arst = arst
@@ -282,14 +314,19 @@ class TimingModel:
             rst_event = True
             rst_rise = self.rst == 1
         prints, fails, regs = [], [], []
+        seen = set()
         for d in edges:
-            for st in active_leaves(self.prog[d], pre):
+            for st in active_leaves(self.prog[d], pre, seen=seen):
                 if st[0] == "P":
                     prints.append(leaf_text(st, pre))
-                elif st[0] in "AU" and not ev(st[2], pre):
-                    fails.append(leaf_text(st, pre))
+                elif st[0] in "AUC":
+                    seen.add((st[0], st[2], value_class(ev(st[2], pre))))
+                    if st[0] in "AU" and ev(st[2], pre) == 0:      # fails iff the test value is ZERO
+                        fails.append(leaf_text(st, pre))
                 elif st[0] == "R":
                     regs.append(d)
+        if "p" in edges:
+            self.env["sg"] = sg_of(pre["x"], pre["k"])
         for d in regs:
             if d == "p":
                 self.env["cnt"] = (self.env["cnt"] + 1) & 3
@@ -299,5 +336,6 @@ class TimingModel:
         unconstrained = bool(self.arst and self.rst and "p" in edges)
         if self.arst and self.rst:
             self.env["cnt"] = self.init["cnt"]
-        return {"prints": prints, "fails": fails, "edges": edges, "unconstrained": unconstrained,
+            self.env["sg"] = self.init["sg"]
+        return {"seen": seen, "prints": prints, "fails": fails, "edges": edges, "unconstrained": unconstrained,
                 "rst_rise": rst_rise, "rst_event": rst_event, "pre": pre}
